@@ -282,7 +282,8 @@ def _roundtrip_case(args):
     out = []
     case = {"kind": "roundtrip", "n": n, "size": size, "seed": seed,
             "tiny_chunks": tiny}
-    # tiny chunks: two images per HDF5 chunk, so that the appends of join
+    # tiny chunks: ten images per HDF5 chunk (the writer's minimum), so that
+    # the appends of join
     # start inside a chunk and run across chunk boundaries
     chunks = gen.chunk_bytes(100) if tiny else contextlib.nullcontext()
     W = "dclab.cli.task_join:join"
@@ -371,6 +372,11 @@ def run(ctx):
     ritems = [(n, size, ctx.seed, scratch, t)
               for n in ((5, 8) if ctx.quick else (5, 8, 12))
               for size in range(1, n) for t in (False, True)]
+    # the writer never uses fewer than 10 events per chunk: 23 events in
+    # parts of 4 / 7 / 9 / 12 make join append across chunk boundaries from
+    # offsets inside a chunk
+    ritems += [(23, size, ctx.seed, scratch, True)
+               for size in ((4, 7, 9, 12) if ctx.quick else range(2, 23))]
     viols = []
     for vs in par.pmap(_split_case, sitems):
         viols.extend(vs)
@@ -393,7 +399,8 @@ def run(ctx):
                    "seconds, date change, ties), k=3 all 6 orders x 27 "
                    "missing-subset assignments (thorough: k=4,5); roundtrip "
                    "split+join; join runs with the default and with a tiny "
-                   "HDF5 chunk size (2 images per chunk); non-trivial = size strictly between 1 and N "
+                   "HDF5 chunk size (10 events per chunk, 23-event round "
+                   "trips crossing chunk boundaries); non-trivial = size strictly between 1 and N "
                    "/ differing times or feature sets",
            "samples": [{"split": [sitems[5][0], sitems[5][1]]},
                        {"join": jitems[len(jitems) // 2][0]},
